@@ -44,9 +44,9 @@ var errorIdioms = []struct{ fn, callee, pred, reason string }{
 
 // calls whose error result is irrelevant to the property (never API calls), each with a reason
 var errorIgnorable = map[string]string{
-	"(hash.Hash32).Write":      "hash.Hash.Write never returns an error",
-	"(io.Writer).Write":        "hash writer",
-	"fmt.Fprintf":              "printing into a hash writer",
+	"(hash.Hash32).Write": "hash.Hash.Write never returns an error",
+	"(io.Writer).Write":   "hash writer",
+	"fmt.Fprintf":         "printing into a hash writer",
 	"(*k8s.io/apimachinery/pkg/util/sets.Int32).UnmarshalJSON": "not an API call",
 }
 
@@ -138,6 +138,9 @@ func derefNamedT(t types.Type) (string, bool) {
 }
 
 func runC09(c *Ctx) {
+	// the partial work a failed reconcile leaves behind must not include a modified cache object: the retry would then
+	// see its own unfinished edit as done (C10.7)
+	c.cacheObjectsUnmodified()
 	c.claimsBeforePodUpdate("C09.5-claims-before-pod-update")
 	n := c.errorDiscipline("C09.1", c.errorDisciplineScopes())
 	c.Floor("C09.1-error-returning-call-sites", n, 40)
@@ -274,7 +277,10 @@ func (c *Ctx) oneErrorSite(prefix string, sc errScope, fn *gf.Fn, an *gf.Analysi
 	parent := path[len(path)-2]
 	idioms := idiomFor(sc.name, callee)
 	// a helper expanded into its callers inherits the idioms tabled for them (the handling was moved, not changed)
+	// (only what is tabled for every one of its callers: a tolerance reviewed for one caller is not one for another)
 	if len(idioms) == 0 && sc.lit == nil && c.liftedAway(sc.fi) {
+		first := true
+		var common []struct{ fn, callee, pred, reason string }
 		for _, g := range c.P.Funcs() {
 			if g.Pkg != sc.fi.Pkg {
 				continue
@@ -285,10 +291,26 @@ func (c *Ctx) oneErrorSite(prefix string, sc errScope, fn *gf.Fn, an *gf.Analysi
 					calls = true
 				}
 			}
-			if calls {
-				idioms = append(idioms, idiomFor(scopeShortName(g), callee)...)
+			if !calls {
+				continue
 			}
+			theirs := idiomFor(scopeShortName(g), callee)
+			if first {
+				common, first = theirs, false
+				continue
+			}
+			var keep []struct{ fn, callee, pred, reason string }
+			for _, it := range common {
+				for _, th := range theirs {
+					if th.pred == it.pred {
+						keep = append(keep, it)
+						break
+					}
+				}
+			}
+			common = keep
 		}
+		idioms = common
 	}
 	wholeIdiom := func() (string, bool) {
 		for _, it := range idioms {
@@ -397,9 +419,9 @@ func (c *Ctx) oneErrorSite(prefix string, sc errScope, fn *gf.Fn, an *gf.Analysi
 
 // handlerIdioms: error-returning calls in functions without an error result (reviewed).
 var handlerIdioms = map[string]string{
-	"StatefulSetController.resolveControllerRef|Get":               "event-handler lookup: an unresolvable owner enqueues nothing; the periodic resync re-delivers",
+	"StatefulSetController.resolveControllerRef|Get":                 "event-handler lookup: an unresolvable owner enqueues nothing; the periodic resync re-delivers",
 	"StatefulSetController.getStatefulSetsForPod|GetPodStatefulSets": "event-handler lookup: no matching set for an orphan enqueues nothing",
-	"StatefulSetController.enqueueStatefulSet|dyn:keyFunc":          "an object without a key cannot be enqueued; logged",
+	"StatefulSetController.enqueueStatefulSet|dyn:keyFunc":           "an object without a key cannot be enqueued; logged",
 	"StatefulSetController.processNextWorkItem|sync":                 "the worker is the top of the error chain: checked by the worker-wiring rule",
 }
 
@@ -703,6 +725,44 @@ func (c *Ctx) stateless(prefix string) {
 			return true
 		})
 	}
+	// and the long-lived structs have nowhere to keep state: every field is an interface or a function value (clients,
+	// listers, recorder, queue, informer-synced functions). A map, slice, channel, counter or struct-typed field
+	// (sync.Map, a mutex-guarded cache) is memory that outlives a reconcile, whichever way it is written.
+	nFields := 0
+	var stNames []string
+	for t := range stateTypes {
+		stNames = append(stNames, t)
+	}
+	sort.Strings(stNames)
+	for _, full := range stNames {
+		i := strings.LastIndex(full, ".")
+		obj, _ := c.P.Lookup(full[:i], full[i+1:]).(*types.TypeName)
+		if obj == nil {
+			continue
+		}
+		st, ok := obj.Type().Underlying().(*types.Struct)
+		if !ok {
+			continue
+		}
+		for k := 0; k < st.NumFields(); k++ {
+			f := st.Field(k)
+			nFields++
+			name := full[i+1:] + "." + f.Name()
+			switch u := f.Type().Underlying().(type) {
+			case *types.Interface, *types.Signature:
+				c.OK(prefix+"-stateless-fields", name, f.Pos(), "an interface or function value")
+			case *types.Pointer:
+				if _, isIface := u.Elem().Underlying().(*types.Interface); isIface {
+					c.OK(prefix+"-stateless-fields", name, f.Pos(), "a pointer to an interface")
+				} else {
+					c.Bad(prefix+"-stateless-fields", name, f.Pos(), "a long-lived controller struct has a field of type "+types.TypeString(f.Type(), nil)+": memory of its own that survives between reconciles (a reconcile must decide from the cluster state it reads, not from what an earlier reconcile remembered)")
+				}
+			default:
+				c.Bad(prefix+"-stateless-fields", name, f.Pos(), "a long-lived controller struct has a field of type "+types.TypeString(f.Type(), nil)+": memory of its own that survives between reconciles (a reconcile must decide from the cluster state it reads, not from what an earlier reconcile remembered)")
+			}
+		}
+	}
+	c.Floor(prefix+"-stateless-struct-fields", nFields, 10)
 	c.Floor(prefix+"-stateless-functions-scanned", n, 30)
 	c.OK(prefix+"-stateless", fmt.Sprintf("%d functions reachable from sync", n), sy.Decl.Pos(), "no store to package-level variables or to fields of the controller, control, pod-control or status-updater structs")
 }
